@@ -86,3 +86,64 @@ Theorem C09_commuting_observable_conserved :
   eigen R rO radd rmul ropp q lam (lincomb R rmul ropp p cs v).
 Proof. exact commuting_preserves_eigen_lincomb. Qed.
 Print Assumptions C09_commuting_observable_conserved.
+
+(* the reason spin-free Hamiltonians conserve the total spin (CommThm.v): every spin-free generator
+   E_ij = a†_{i alpha} a_{j alpha} + a†_{i beta} a_{j beta} commutes with S+ = sum_k a†_{k alpha} a_{k beta}, for every
+   orbital count, i, j and vector; from the CAR identity
+   a†_p a_q a†_r a_s - a†_r a_s a†_p a_q = delta_qr a†_p a_s - delta_sp a†_r a_q  (any four positions) *)
+From FQE Require Import TableThm DvecThm CommThm.
+Theorem C09_commutator_of_hops :
+  forall (R : Type) (rO rI : R) (radd rmul rsub : R -> R -> R) (ropp : R -> R),
+  ring_theory rO rI radd rmul rsub ropp eq ->
+  forall p q r s n (V : vec R) d, q < n -> s < n -> wide R n V ->
+  radd (coeff R rO radd (act_string R ropp [mkop p true; mkop q false; mkop r true; mkop s false] V) d)
+       (ropp (coeff R rO radd (act_string R ropp [mkop r true; mkop s false; mkop p true; mkop q false] V) d))
+  = radd (if Nat.eqb q r then coeff R rO radd (act_string R ropp [mkop p true; mkop s false] V) d else rO)
+         (ropp (if Nat.eqb s p then coeff R rO radd (act_string R ropp [mkop r true; mkop q false] V) d else rO)).
+Proof. exact comm_basic. Qed.
+Print Assumptions C09_commutator_of_hops.
+
+Theorem C09_spinfree_generators_commute_with_spin_ladder :
+  forall (R : Type) (rO rI : R) (radd rmul rsub : R -> R -> R) (ropp : R -> R),
+  ring_theory rO rI radd rmul rsub ropp eq ->
+  forall (a b : bool) norb i j (V : vec R) d, i < norb -> j < norb -> wide R (norb + norb) V ->
+  coeff R rO radd (act_poly R rmul ropp (E R rI norb i j) (act_poly R rmul ropp (T R rI a b norb) V)) d
+  = coeff R rO radd (act_poly R rmul ropp (T R rI a b norb) (act_poly R rmul ropp (E R rI norb i j) V)) d.
+Proof. exact comm_E_T. Qed.
+Print Assumptions C09_spinfree_generators_commute_with_spin_ladder.
+
+(* ... hence with the total spin: 4 S^2 = 4 S- S+ + 2 (N_alpha - N_beta) + (N_alpha - N_beta)^2 *)
+Theorem C09_spinfree_generators_commute_with_S2 :
+  forall (R : Type) (rO rI : R) (radd rmul rsub : R -> R -> R) (ropp : R -> R),
+  ring_theory rO rI radd rmul rsub ropp eq ->
+  forall norb i j (V : vec R), i < norb -> j < norb -> wide R (norb + norb) V ->
+  forall d, coeff R rO radd (act_poly R rmul ropp (E R rI norb i j) (four_S2 R rI radd rmul ropp norb V)) d
+          = coeff R rO radd (four_S2 R rI radd rmul ropp norb (act_poly R rmul ropp (E R rI norb i j) V)) d.
+Proof. exact E_commutes_with_S2. Qed.
+Print Assumptions C09_spinfree_generators_commute_with_S2.
+
+(* ... and so does the whole spin-free Hamiltonian sum_il h1[i,l] E_il + sum_ijkl h2[i,j,k,l] (-a†_i a†_j a_k a_l, spin-summed)
+   that fqe builds from restricted one- and two-body tensors (DvecThm.restricted_poly): H (4 S^2) V = (4 S^2) H V
+   coefficient-wise, for every orbital count, every tensor pair over every commutative ring and every vector *)
+Theorem C09_spinfree_hamiltonian_commutes_with_S2 :
+  forall (R : Type) (rO rI : R) (radd rmul rsub : R -> R -> R) (ropp : R -> R),
+  ring_theory rO rI radd rmul rsub ropp eq ->
+  forall norb (h1 : nat -> nat -> R) (h2 : nat -> nat -> nat -> nat -> R) (V : vec R), wide R (norb + norb) V ->
+  forall d, coeff R rO radd (act_poly R rmul ropp (restricted_poly R norb h1 h2) (four_S2 R rI radd rmul ropp norb V)) d
+          = coeff R rO radd (four_S2 R rI radd rmul ropp norb (act_poly R rmul ropp (restricted_poly R norb h1 h2) V)) d.
+Proof. exact spinfree_hamiltonian_commutes_with_S2. Qed.
+Print Assumptions C09_spinfree_hamiltonian_commutes_with_S2.
+
+(* ... hence every polynomial propagator of a spin-free Hamiltonian - every truncated Taylor series, every Chebyshev
+   expansion - maps an eigenvector of 4 S^2 to an eigenvector with the same eigenvalue (non-vacuity:
+   CommThm.triplet0_is_S2_eigenvector) *)
+Theorem C09_spinfree_propagation_conserves_S2 :
+  forall (R : Type) (rO rI : R) (radd rmul rsub : R -> R -> R) (ropp : R -> R),
+  ring_theory rO rI radd rmul rsub ropp eq ->
+  forall norb (h1 : nat -> nat -> R) (h2 : nat -> nat -> nat -> nat -> R) (lam : R) (cs : list (R * nat)) (v : vec R),
+  wide R (norb + norb) v ->
+  (forall d, coeff R rO radd (four_S2 R rI radd rmul ropp norb v) d = coeff R rO radd (vscale R rmul lam v) d) ->
+  forall d, coeff R rO radd (four_S2 R rI radd rmul ropp norb (lincomb R rmul ropp (restricted_poly R norb h1 h2) cs v)) d
+          = coeff R rO radd (vscale R rmul lam (lincomb R rmul ropp (restricted_poly R norb h1 h2) cs v)) d.
+Proof. exact spinfree_propagation_conserves_S2. Qed.
+Print Assumptions C09_spinfree_propagation_conserves_S2.
